@@ -51,14 +51,15 @@ def r08_1(ctx, fx):
         takes = [c for c in fn.calls(r"Option::take$") if ".secondary" in fn.recv(c)]
         ctx.anchor("R08.1", "closed: secondary.take()", len(takes), 1, cfg=fx.cfg)
         for i in rm:
-            ok = False
-            for t in takes:
+            rel = [t for t in takes if i in fn.reach([t.node], after=True)]
+            ok = bool(rel) and i not in fn.reach([fn.entry], avoid=[x.node for x in rel])
+            for t in rel:
                 cuts = refine_cuts(fn, t, ["Some", "?"])
-                r = fn.reach([t.node], cut=cuts, after=True)
-                if i not in r and i not in fn.reach([fn.entry], avoid=[x.node for x in takes]):
-                    ok = True
+                if i in fn.reach([t.node], cut=cuts, after=True):
+                    ok = False
             ctx.ob("R08.1", "on_connection_closed/remove-only-if-no-secondary", ok, site=fn.site(i), cfg=fx.cfg,
-                   detail="the peer is removed (and ConnectionClosed emitted) only when secondary.take() returned None")
+                   detail="the peer is removed (and ConnectionClosed emitted) only when secondary.take() returned None: a stored secondary "
+                          "connection is always promoted, whatever its keep-alive state")
         eqs = fn.calls(r"::eq$")
         prim = []
         for c in eqs:
